@@ -75,6 +75,7 @@ def decide(work, prop, P, rejects, tr, start=0):
     violations = []
     unconfirmed = 0
     k = start
+    pending = []
     for r in unexplained[:MAX_CONFIRM]:
         k += 1
         wit = vlib.save_witness(prop, k, r['events'])
@@ -83,6 +84,29 @@ def decide(work, prop, P, rejects, tr, start=0):
         if ok:
             violations.append(wit)
         else:
+            pending.append((r, wit, note))
+    if pending and P.get('_ctx'):
+        # The history alone does not reproduce: the behaviour may depend on what the process did before
+        # (state kept across calls: pools, memos).  Second attempt: the whole run again in a fresh process
+        # with identical arguments, and the same histories validated again.
+        again = reproduce_in_context(work, prop, P['_ctx'], [r['h'] for (r, _, _) in pending], tr)
+        for (r, wit, note) in pending:
+            if r['h'] in again:
+                with open(wit, 'w') as f:
+                    f.write('\n'.join(again[r['h']]) + '\n')
+                with open(wit + '.ctx.json', 'w') as f:
+                    json.dump(dict(mode='whole-run', h=r['h'], seed=P['_ctx']['seed'], tier=P['_ctx']['tier'],
+                                   harness_args=list(P['_ctx']['extra']), variant=P['_ctx'].get('variant', 0),
+                                   note='reproduces only in the context of the whole run (state kept across calls); '
+                                        'bin/check --replay re-runs the harness with these arguments'), f)
+                violations.append(wit)
+                log('history %d: reproduced in the context of the whole run (not in isolation)' % r['h'])
+            else:
+                unconfirmed += 1
+                os.remove(wit)
+                log('rejection of history %d was not reproduced on re-execution %s' % (r['h'], note))
+    else:
+        for (r, wit, note) in pending:
             unconfirmed += 1
             os.remove(wit)
             log('rejection of history %d was not reproduced on re-execution %s' % (r['h'], note))
@@ -91,6 +115,40 @@ def decide(work, prop, P, rejects, tr, start=0):
     notes['unexplained'] = len(unexplained)
     notes['unconfirmed'] = unconfirmed
     return violations, known_ids, notes
+
+
+def reproduce_in_context(work, prop, ctx, hs, tr):
+    """Run the harness again (fresh process, identical arguments), pick the given histories out of its
+    output and validate them again.  Returns {h: [event lines]} for those rejected again."""
+    meta = vlib.run_harness(work, prop, ctx['seed'], ctx['tier'], paths=ctx.get('paths'), extra=ctx['extra'])
+    want = set(hs)
+    got = {h: [] for h in hs}
+    for f in sorted(os.listdir(meta['dir'])):
+        if not f.startswith('shard-'):
+            continue
+        with open(os.path.join(meta['dir'], f)) as fh:
+            for line in fh:
+                i = line.find('"h":')
+                if i < 0:
+                    continue
+                j = i + 4
+                while j < len(line) and (line[j].isdigit() or line[j] == '-'):
+                    j += 1
+                try:
+                    h = int(line[i + 4:j])
+                except ValueError:
+                    continue
+                if h in want:
+                    got[h].append(line.rstrip('\n'))
+    shutil.rmtree(meta['dir'], True)
+    p = work.fresh('context') + '.ndjson'
+    with open(p, 'w') as f:
+        for h in hs:
+            for line in got[h]:
+                f.write(line + '\n')
+    v = vlib.validate_file(work, tr['module'], tr['cfg'], p, env=tr.get('env'), stack=tr.get('stack', '512m'))
+    rejected = {h for (_, h, _) in v['rejects']}
+    return {h: got[h] for h in hs if h in rejected and got[h]}
 
 
 def finish(prop, violations, known, unconfirmed):
@@ -166,7 +224,8 @@ def run_generic(prop, tier, seed, t0):
         res = vlib.validate_dir(work, tr['module'], tr['cfg'], meta['dir'], env=tr.get('env'),
                                 stack=tr.get('stack', '64m'), heap=tr.get('heap', '3g'))
         rejects = gather_rejects(work, res, 'abs')
-        v, k, notes = decide(work, prop, dict(P, **var), rejects, tr, start=len(violations))
+        ctx = dict(seed=seed, tier=tier, paths=paths if have_paths else None, extra=var.get('harness_args', []), variant=vi)
+        v, k, notes = decide(work, prop, dict(P, _ctx=ctx, **var), rejects, tr, start=len(violations))
         violations += v
         known = known or k
         for kk, vv in notes.items():
@@ -201,6 +260,25 @@ def run_generic(prop, tier, seed, t0):
     return finish(prop, violations, known, allnotes['unconfirmed'])
 
 
+def gen_paths(work, P, tier):
+    """the TLC-generated inputs of a tier, as the check itself produces them"""
+    paths = os.path.join(work.dir, 'paths-replay.ndjson')
+    have = False
+    with open(paths, 'w') as out:
+        for i, m in enumerate(P.get('mc', [])):
+            if not m.get('emit') or m.get('expect_violation') or (m.get('tier') and m['tier'] != tier):
+                continue
+            cfg = m['cfg'] if isinstance(m['cfg'], str) else T(tier, *m['cfg'])
+            pf = os.path.join(work.dir, 'pr-%d.ndjson' % i)
+            vlib.model_check(work, m['module'], cfg, workers=m.get('workers'), timeout=m.get('timeout', 1500), emit_to=pf,
+                             heap=m.get('heap', '12g'), stack=m.get('stack', '64m'))
+            with open(pf) as f:
+                shutil.copyfileobj(f, out)
+            os.remove(pf)
+            have = True
+    return paths if have else None
+
+
 def run(prop, tier, seed, t0):
     P = PROPS[prop]
     return P.get('run', run_generic)(prop, tier, seed, t0)
@@ -213,6 +291,22 @@ def replay(prop, witness):
     work = vlib.Work(prop)
     vlib.build_harness(work)
     trs = [v['trace'] for v in P['variants']] if P.get('variants') else [P['trace']]
+    if os.path.exists(witness + '.ctx.json'):
+        # the witness reproduces only in the context of the whole run: run it again
+        with open(witness + '.ctx.json') as f:
+            cx = json.load(f)
+        paths = gen_paths(work, P, cx['tier'])
+        tr = trs[cx.get('variant', 0)]
+        again = reproduce_in_context(work, prop, dict(seed=cx['seed'], tier=cx['tier'], paths=paths, extra=cx['harness_args']),
+                                     [cx['h']], tr)
+        if cx['h'] in again:
+            print('REPRODUCED (whole run, seed %s, tier %s): history %d is again rejected by %s'
+                  % (cx['seed'], cx['tier'], cx['h'], tr['module']))
+            for line in again[cx['h']][:40]:
+                print('  ' + line)
+            return 1
+        print('NOT REPRODUCED in a whole run with seed %s, tier %s' % (cx['seed'], cx['tier']))
+        return 0
     ok = False
     for tr in trs:
         try:
